@@ -283,3 +283,12 @@ def rule_mustpass(ctx):
 
 
 RULES.append(("C14.j", "must-pass-through: no path around the effects this property rests on (added fast paths / early returns)", rule_mustpass))
+
+
+def rule_commit(ctx):
+    from . import mustpass
+    for g, floor in [("ports", 80)]:
+        mustpass.commit_group(ctx, g, floor)
+
+
+RULES.append(("C14.k", "branch-commit: between the decision to perform an effect and the effect there is no way out", rule_commit))
